@@ -30,6 +30,8 @@ for pid in sorted(PROPS):
         engine="lean-proof+correspondence",
         level_claimed=dict(category="proof", text=t["text"], design_ref=t.get("design_ref", f"DESIGN.md section 7, {pid}")),
         level_note=t["note"],
-        technique="machine-checked proof in Lean 4 (kernel-checked theorems over a hand-written model) + checked model/implementation correspondence"))
+        technique=("machine-checked proof in Lean 4 (kernel-checked theorems over a hand-written model) + checked model/implementation correspondence"
+                   + (" + translator tie (the pure core is re-translated from the Rust source to Lean on every run and proved equal to the model)"
+                      if PROPS[pid].get("gen") else ""))))
 json.dump(m, open(os.path.join(ROOT, "MANIFEST.json"), "w"), indent=1)
 print("MANIFEST.json:", len(m["checks"]), "checks,", len(NOT_APPLICABLE), "not_applicable")
